@@ -201,73 +201,88 @@ def run(ctx, replay=None):
         return
     rng = ctx.rng
     os.environ["VERIF_WORK"] = ctx.work
-    vm = "vm1"
-    dag, parent = state_graph(vm)
-
-    def path_to(st):
-        out = [st]
-        while out[0] in parent:
-            out.insert(0, parent[out[0]])
-        return out
-    variants_part(ctx, replay, path_to)
-    if replay and "variants" in replay["data"]:
-        return
-    states = [s for s in dag if not s.startswith("leaf:")]
-    pairs = []
-    for to in states:
-        p = path_to(to)
-        for fr in p:
-            pairs.append((fr, to))
-    if replay and "from" in replay["data"]:
-        todo = [(vm, replay["data"]["from"], replay["data"]["to"], replay["data"]["nets"], 1)]
+    if replay and replay["data"].get("vm"):
+        vm_list = [(replay["data"]["vm"], 14)]
     else:
-        netsets = ["net1", "net1 net2"] + (["cluster1.net6 cluster1.net7", "net1 net2 net3"] if ctx.thorough else [])
-        todo = [(vm, fr, to, nets, rng.randrange(10 ** 6)) for fr, to in pairs for nets in netsets]
-        if not ctx.thorough:
-            rng.shuffle(todo)
-            todo = todo[:14]
-        todo += [(vm, "bogus", "customize", "net1", 1), (vm, "install", "nosuchstate", "net1", 2)]
-    with concurrent.futures.ProcessPoolExecutor(max_workers=12) as ex:
-        outs = list(ex.map(run_update, todo))
-    I = Interner()
-    dag_t = clist([cpair(cN(I(k)), clist([cN(I(c)) for c in v])) for k, v in dag.items()])
-    terms, idx = [], []
-    rejected_ok = True
-    for k, (args, o) in enumerate(zip(todo, outs)):
-        _, fr, to, nets, _ = args
-        if fr not in dag or to not in dag:
-            if o["err"] is None:
-                rejected_ok = False
-                ctx.fail("C15:unknown-state-accepted", f"update from {fr} to {to} was not rejected",
-                         {"from": fr, "to": to, "nets": nets, "impl": o}, True)
-            continue
-        nworkers = len(nets.split())
-        # every worker runs / removes the same set; compare per worker through the union and the counts
-        ran = sorted({s for w, s in o["ran"]})
-        terms.append(cpair(dag_t, clist([cN(I(s)) for s in path_to(to)]), cN(I(fr)), cN(I(to)),
-                           cpair(clist([cN(I(s)) for s in ran]), clist([cN(I(s)) for s in sorted(set(o["removed"]))]))))
-        idx.append(k)
-    ctx.obligation("monitor:unknown-states-rejected", "monitor", rejected_ok, "")
-    if terms:
-        res = coq_failing(ctx, IMPORTS, "upd_case", terms, ["upd_corr", "upd_monitor"], shard=50, tag="upd")
-        other = [k for k in idx if outs[k]["others"] or outs[k]["err"]]
-        ctx.obligation("correspondence:update-runs-and-removals", "correspondence", not res["upd_corr"] and not other,
-                       f"{len(res['upd_corr'])} of {len(terms)} updates differ from Model/Tools.v; {len(other)} touched another vm or failed")
-        mon = set(res["upd_monitor"])
-        for j in sorted(set(res["upd_corr"]) | mon)[:2]:
-            k = idx[j]
-            ctx.fail("C15:update:" + ("path-or-dependants" if j in mon else "correspondence"),
-                     "update: " + ("ran a test outside the requested path or removed a state that is not derived from to_state" if j in mon
-                                   else "runs / removals differ from the model's"),
-                     {"from": todo[k][1], "to": todo[k][2], "nets": todo[k][3], "impl": outs[k], "expected_path": path_to(todo[k][2]),
-                      "obligation": "correspondence:update-runs-and-removals"}, j in mon)
-        for k in other[:1]:
-            ctx.fail("C15:update:other-vm-or-error", "update touched another vm's tests/states or raised",
-                     {"from": todo[k][1], "to": todo[k][2], "nets": todo[k][3], "impl": outs[k]}, True)
-        ctx.count(len(todo), sum(1 for a in todo if a[1] != a[2] and a[1] in dag and a[2] in dag))
-        ctx.coverage["exhaustive"] = bool(ctx.thorough)
-        ctx.sample({"from": todo[idx[0]][1], "to": todo[idx[0]][2], "nets": todo[idx[0]][3], "impl": outs[idx[0]]})
-    ctx.coverage["state_graph"] = dag
+        vm_list = [("vm1", 10), ("vm3", 5), ("vm2", 4)]
+    for vm, quick_n in vm_list:
+        dag, parent = state_graph(vm)
+
+        def path_to(st):
+            out = [st]
+            while out[0] in parent:
+                out.insert(0, parent[out[0]])
+            return out
+        if vm == "vm1":
+            variants_part(ctx, replay, path_to)
+            if replay and "variants" in replay["data"]:
+                return
+        states = [s for s in dag if not s.startswith("leaf:")]
+        if vm == "vm1":
+            base_states = list(states)
+        else:
+            # the tool's domain is the setup chain of one vm: for the other vms only the states vm1 has as well (the
+            # further states of vm2 are saved by tests that need several vms)
+            states = [s for s in states if s in base_states]
+            dag = {k: [c for c in v if c in base_states] for k, v in dag.items() if k in base_states}
+            parent = {c: p_ for c, p_ in parent.items() if c in base_states and p_ in base_states}
+        pairs = []
+        for to in states:
+            p = path_to(to)
+            for fr in p:
+                pairs.append((fr, to))
+        if replay and "from" in replay["data"]:
+            todo = [(vm, replay["data"]["from"], replay["data"]["to"], replay["data"]["nets"], 1)]
+        else:
+            netsets = ["net1", "net1 net2"] + (["cluster1.net6 cluster1.net7", "net1 net2 net3"] if ctx.thorough else [])
+            todo = [(vm, fr, to, nets, rng.randrange(10 ** 6)) for fr, to in pairs for nets in netsets]
+            if not ctx.thorough:
+                rng.shuffle(todo)
+                todo = todo[:quick_n]
+            todo += [(vm, "bogus", "customize", "net1", 1), (vm, "install", "nosuchstate", "net1", 2)]
+        with concurrent.futures.ProcessPoolExecutor(max_workers=12) as ex:
+            outs = list(ex.map(run_update, todo))
+        I = Interner()
+        dag_t = clist([cpair(cN(I(k)), clist([cN(I(c)) for c in v])) for k, v in dag.items()])
+        terms, idx = [], []
+        rejected_ok = True
+        for k, (args, o) in enumerate(zip(todo, outs)):
+            _, fr, to, nets, _ = args
+            if fr not in dag or to not in dag:
+                if o["err"] is None:
+                    rejected_ok = False
+                    ctx.fail("C15:unknown-state-accepted", f"update from {fr} to {to} was not rejected",
+                             {"vm": vm, "from": fr, "to": to, "nets": nets, "impl": o}, True)
+                continue
+            nworkers = len(nets.split())
+            # every worker runs / removes the same set; compare per worker through the union and the counts
+            ran = sorted({s for w, s in o["ran"]})
+            if vm != "vm1":
+                o = dict(o, removed=[x for x in o["removed"] if x in base_states])
+            terms.append(cpair(dag_t, clist([cN(I(s)) for s in path_to(to)]), cN(I(fr)), cN(I(to)),
+                               cpair(clist([cN(I(s)) for s in ran]), clist([cN(I(s)) for s in sorted(set(o["removed"]))]))))
+            idx.append(k)
+        ctx.obligation(f"monitor:unknown-states-rejected:{vm}", "monitor", rejected_ok, "")
+        if terms:
+            res = coq_failing(ctx, IMPORTS, "upd_case", terms, ["upd_corr", "upd_monitor"], shard=50, tag="upd")
+            other = [k for k in idx if outs[k]["others"] or outs[k]["err"]]
+            ctx.obligation(f"correspondence:update-runs-and-removals:{vm}", "correspondence", not res["upd_corr"] and not other,
+                           f"{len(res['upd_corr'])} of {len(terms)} updates differ from Model/Tools.v; {len(other)} touched another vm or failed")
+            mon = set(res["upd_monitor"])
+            for j in sorted(set(res["upd_corr"]) | mon)[:2]:
+                k = idx[j]
+                ctx.fail("C15:update:" + ("path-or-dependants" if j in mon else "correspondence"),
+                         "update: " + ("ran a test outside the requested path, removed a state that is not derived from to_state, or left a path test / a derived state out" if j in mon
+                                       else "runs / removals differ from the model's"),
+                         {"vm": vm, "from": todo[k][1], "to": todo[k][2], "nets": todo[k][3], "impl": outs[k], "expected_path": path_to(todo[k][2]),
+                          "obligation": f"correspondence:update-runs-and-removals:{vm}"}, j in mon)
+            for k in other[:1]:
+                ctx.fail("C15:update:other-vm-or-error", "update touched another vm's tests/states or raised",
+                         {"vm": vm, "from": todo[k][1], "to": todo[k][2], "nets": todo[k][3], "impl": outs[k]}, True)
+            ctx.count(len(todo), sum(1 for a in todo if a[1] != a[2] and a[1] in dag and a[2] in dag))
+            ctx.coverage["exhaustive"] = bool(ctx.thorough)
+            ctx.sample({"from": todo[idx[0]][1], "to": todo[idx[0]][2], "nets": todo[idx[0]][3], "impl": outs[idx[0]]})
+    ctx.coverage["state_graph_last_vm"] = dag
     ctx.coverage["rule"] = (f"vm1 (CentOS) of the shipped suite: states {states}; every (from_state, to_state) with from_state on the path from creation to to_state "
                             f"({len(pairs)} pairs) x worker sets (1-2 lxc workers; thorough: also 3 lxc and 2 remote) - thorough enumerates all, quick takes a "
                             "seed-rotated slice of 14 - plus two unknown states; the real intertest_setup.update under the selftests' job seam with "
